@@ -55,6 +55,8 @@ type Shared struct {
 	notes      map[string]int
 	deadline   time.Time
 	probeNames sync.Map
+	crossPerWorker int
+	cross      []crossSample
 	oneShot    bool
 }
 
@@ -265,6 +267,16 @@ func (sh *Shared) addViolation(key string, v *Violation) {
 	sh.vorder = append(sh.vorder, key)
 }
 
+type crossSample struct {
+	script, want, harness string
+}
+
+func (sh *Shared) addCross(c crossSample) {
+	sh.vmu.Lock()
+	sh.cross = append(sh.cross, c)
+	sh.vmu.Unlock()
+}
+
 func (sh *Shared) addNote(n string) {
 	sh.vmu.Lock()
 	if sh.notes == nil {
@@ -286,6 +298,7 @@ type RunResult struct {
 	SolverQ    int
 	SolverT    time.Duration
 	TimedOut   bool
+	Cross      []crossSample
 	spec       *RunSpec
 }
 
@@ -497,6 +510,10 @@ func runHarness(prog *ssa.Program, entry *ssa.Function, cfg *RunConfig, handlers
 	sh := &Shared{prog: prog, cfg: cfg, entry: entry, handlers: handlers, knownKeys: known, nworkers: nworkers,
 		violations: map[string]*Violation{}, traceSched: !cfg.Sequential}
 	sh.cond = sync.NewCond(&sh.mu)
+	sh.crossPerWorker = 2
+	if cfg.Solver == "cvc5" {
+		sh.crossPerWorker = 0
+	}
 	sh.queue = [][]int{{}}
 	if cfg.OneTrail != nil {
 		sh.queue = [][]int{cfg.OneTrail}
@@ -545,6 +562,7 @@ func runHarness(prog *ssa.Program, entry *ssa.Function, cfg *RunConfig, handlers
 		res.Violations = append(res.Violations, sh.violations[k])
 	}
 	res.Samples = sh.samples
+	res.Cross = sh.cross
 	sh.funcs.Range(func(k, _ interface{}) bool {
 		fn := k.(*ssa.Function)
 		if fn.Pkg != nil && runsInitPath(fn.Pkg.Pkg.Path()) && !strings.Contains(fn.Pkg.Pkg.Path(), "zzverif") {
